@@ -4,3 +4,5 @@ import "github.com/hknutzen/Netspoc-Approve/go/pkg/cisco"
 
 // Entry points: hand the ASA command description to the harnesses in package cisco.
 func VerifMergeACL() { cisco.VerifMergeACL(cmdInfo, "ASA") }
+
+func VerifASAACL() { cisco.VerifASAACL(cmdInfo) }
